@@ -106,6 +106,9 @@ def split2 (s : Token) (c : Char) : R (Token × Token) :=
   | (a, some b) => if b.contains c then .error .ValueError else .ok (a, b)
   | (_, none) => .error .ValueError
 
+/-- `s.find(c)` for a one-character `c`: the first position, or -1 -/
+def strFind (s : Token) (c : Char) : Int := if s.contains c then (s.idxOf c : Nat) else -1
+
 /-- `s.ljust(n, c)` -/
 def ljust (s : Token) (n : Nat) (c : Char) : Token := s ++ List.replicate (n - s.length) c
 
